@@ -317,6 +317,21 @@ def polyhedron_ff(chk):
         if not ok:
             continue
         e = to_expr(res.inner[()])
+        # concretisation cross-check of the engine (masked accumulator loop over the faces): real box off the origin; the face transforms are the real
+        # face polygons' values, the planes the real equations
+        from pyvc import concrete
+        from .common import real_coxeter
+        cox = real_coxeter()
+        lo_, hi_ = np.array([1.0, -2.0, 0.5]), np.array([2.5, -1.0, 3.5])
+        cpoly = cox.shapes.ConvexPolyhedron(np.array([[x, y, z] for x in (lo_[0], hi_[0]) for y in (lo_[1], hi_[1]) for z in (lo_[2], hi_[2])]))
+        realp = cox.shapes.Polyhedron(np.asarray(cpoly.vertices), [list(map(int, f)) for f in cpoly.faces])
+        Qc = np.array([[0.3, -0.2, 0.5], [2.0, 1.0, -1.5], [0.0, 0.0, 0.0], [1e-7, 0.0, 0.0], [5.0, -4.0, 3.0]])
+        EQ = np.asarray(realp._equations, float)
+        FF = np.array([cox.shapes.Polygon(np.asarray(realp.vertices)[list(f)], EQ[i, :3]).compute_form_factor_amplitude(Qc.copy()) for i, f in enumerate(realp.faces)])
+        env = concrete.Env(sizes={H.F: len(EQ), QD: len(Qc), H.N: len(realp.vertices)}, arrays={"eqh": EQ, "qv": Qc, "Fface": lambda f, k: FF[int(f), int(k)],
+                                                                                              "Vh": np.asarray(realp.vertices, float)},
+                           scalars={rho: 2.0, V0: float(realp.volume), **{cen[j]: float(realp.centroid[j]) for j in range(3)}})
+        concrete.cross_check(chk, f"Polyhedron.compute_form_factor_amplitude[{t}]", fkey, e, env, (QD,), realp.compute_form_factor_amplitude(Qc.copy(), density=2.0), rtol=1e-9)
         pws = [x for x in sp.preorder_traversal(e) if isinstance(x, sp.Piecewise)]
         conds = {c for x in pws for _, c in x.args if c is not sp.true}
         small = [c for c in conds if isinstance(c, sp.StrictLessThan)]
